@@ -321,4 +321,74 @@ theorem members_join (kvs : List (Text × Text)) (hst : ∀ kv ∈ kvs, Stable k
     · simp [fuelFor]; omega
 
 
+
+theorem skipMembers_join : ∀ (kvs : List (Text × Text)), kvs ≠ [] → (∀ kv ∈ kvs, Stable kv.2) →
+    ∀ (f : Nat) (rest : Text), (joinMembers kvs).length ≤ f →
+    skipMembers f (joinMembers kvs ++ 125 :: rest) = some rest := by
+  intro kvs
+  induction kvs with
+  | nil => intro h; exact absurd rfl h
+  | cons kv kvs ih =>
+    intro _ hst f rest hf
+    obtain ⟨k, v⟩ := kv
+    have hv : Stable v := hst (k, v) (by simp)
+    have hl := memberText_length (k, v)
+    cases f with
+    | zero =>
+      exfalso
+      cases kvs with
+      | nil => simp only [joinMembers] at hf; omega
+      | cons kv2 kvs' => simp only [joinMembers, List.length_append, List.length_cons] at hf; omega
+    | succ f =>
+    cases kvs with
+    | nil =>
+      simp only [joinMembers] at hf ⊢
+      rw [skipMembers, splitKey_member k v _ hv]
+      have h1 := stable_fuel hv f (by simp at hl; omega) (125 :: rest) (by simp [Delim])
+      simp [h1, afterItem_close 125 rest (by decide) (by decide)]
+    | cons kv2 kvs' =>
+      simp only [joinMembers] at hf ⊢
+      have happ : memberText (k, v) ++ 44 :: joinMembers (kv2 :: kvs') ++ 125 :: rest
+          = memberText (k, v) ++ (44 :: (joinMembers (kv2 :: kvs') ++ 125 :: rest)) := by simp
+      rw [happ, skipMembers, splitKey_member k v _ hv]
+      have hlen : v.length ≤ f := by simp at hf hl; omega
+      have h1 := stable_fuel hv f hlen (44 :: (joinMembers (kv2 :: kvs') ++ 125 :: rest)) (by simp [Delim])
+      simp only [h1, afterItem_comma]
+      have hst' : ∀ kv ∈ kv2 :: kvs', Stable kv.2 := fun x hx => hst x (by simp at hx ⊢; right; exact hx)
+      have hws : skipWs (joinMembers (kv2 :: kvs') ++ 125 :: rest) = joinMembers (kv2 :: kvs') ++ 125 :: rest := by
+        have : ∃ r2, joinMembers (kv2 :: kvs') = 34 :: r2 := by
+          cases kvs' with
+          | nil => exact ⟨_, by simp [joinMembers, memberText, encodeString]; rfl⟩
+          | cons kv3 kvs'' => exact ⟨_, by simp [joinMembers, memberText, encodeString]; rfl⟩
+        obtain ⟨r2, hr2⟩ := this
+        rw [hr2]; simp [skipWs, isJsonWs]
+      rw [hws]
+      exact ih (by simp) hst' f rest (by simp at hf; omega)
+
+/-- an object text built from stable values is itself a stable value -/
+theorem stable_object (kvs : List (Text × Text)) (hst : ∀ kv ∈ kvs, Stable kv.2) :
+    Stable (123 :: (joinMembers kvs ++ [125])) := by
+  refine ⟨(joinMembers kvs).length + 1, ?_⟩
+  intro r _
+  have happ : (123 :: (joinMembers kvs ++ [125])) ++ r = 123 :: (joinMembers kvs ++ 125 :: r) := by simp
+  rw [happ, skipValue]
+  simp only [show ((123 : Nat) == 34) = false by decide, show ((123 : Nat) == 91) = false by decide,
+    beq_self_eq_true, Bool.false_eq_true, ↓reduceIte]
+  cases kvs with
+  | nil => simp [joinMembers, skipWs, isJsonWs]
+  | cons kv kvs' =>
+    have hq : ∃ r2, joinMembers (kv :: kvs') = 34 :: r2 := by
+      cases kvs' with
+      | nil => exact ⟨_, by simp [joinMembers, memberText, encodeString]; rfl⟩
+      | cons kv3 kvs'' => exact ⟨_, by simp [joinMembers, memberText, encodeString]; rfl⟩
+    obtain ⟨r2, hr2⟩ := hq
+    have hws : skipWs (joinMembers (kv :: kvs') ++ 125 :: r) = 34 :: (r2 ++ 125 :: r) := by
+      rw [hr2]; simp [skipWs, isJsonWs]
+    rw [hws]
+    simp only [show ((34 : Nat) == 125) = false by decide, Bool.false_eq_true, ↓reduceIte]
+    have : 34 :: (r2 ++ 125 :: r) = joinMembers (kv :: kvs') ++ 125 :: r := by rw [hr2]; simp
+    rw [this]
+    exact skipMembers_join (kv :: kvs') (by simp) hst _ r (by omega)
+
+
 end Jrpc
